@@ -3,24 +3,26 @@ from tools import hydrob, vlib
 
 
 class C34(vlib.Spec):
-    model_vo = ["theories/HydroB/ModelAtomic.vo"]
+    model_vo = ["theories/HydroB/ModelAtomic.vo", "theories/HydroB/SimSlice.vo"]
     props_vo = "theories/Props/C34.vo"
-    theorems = ["C34_ack_implies_read_after_write", "C34_acks_are_the_writes", "C34_nonatomic_refuted"]
+    theorems = ["C34_ack_implies_read_after_write", "C34_sim_ack_implies_read_after_write", "C34_acks_are_the_writes",
+                "C34_nonatomic_refuted"]
     crate, group, binary = "h_hydro_b", "hydro", "h_hydro_b"
-    imports = ("From Coq Require Import List NArith.\nFrom HV Require Import HydroB.ModelSlice HydroB.ModelAtomic.\n"
+    imports = ("From Coq Require Import List NArith.\nFrom HV Require Import Sim.Model HydroB.ModelSlice HydroB.ModelAtomic HydroB.SimSlice.\n"
                "Import ListNotations.")
-    level = "other"
+    level = "proof"
     explanation = (
-        "Coq theorem on a model of an atomic region (writes batch, state update, end_atomic release and atomic "
-        "snapshots of one unified tick; write and read batches chosen by arbitrary hook decisions), for ALL tick "
-        "scripts: an acknowledgement observed at step i implies every atomic snapshot of steps j >= i contains the "
-        "write; acknowledgements are exactly the writes that entered; a stale (non-atomic) snapshot refutes the "
-        "implication. Tie: a keyed-counter flow (tutorial shape: atomic count, end_atomic acks, `use::atomic` reads) "
-        "compiled through the PRODUCTION embedded builder and driven on random tick partitions of random write/read "
-        "requests; per-tick acks and read responses compared (as multisets) with the model and the executable "
-        "read-after-write predicate evaluated on the implementation's outputs. NOT done (hence `other`): the "
-        "simulator path is not executed (no exhaustive sim runs), so the model's one-unified-tick reading of "
-        "SimBuilder::begin_atomic/end_atomic is validated against production code generation only.")
+        "Coq theorems, each the full statement on its model and for ALL arrival/decision scripts: (1) over engine "
+        "Sim's model of the real simulator (SimTick [write hook; read hook] of any batch hook kinds decided by "
+        "run_hooks; atomic snapshot = state after the tick's writes) and (2) over the production model: an "
+        "acknowledgement released in tick i is contained in every atomic snapshot read in a tick j >= i; acks are "
+        "exactly the writes that entered; a stale (non-atomic) snapshot refutes it. Tie: (a) a keyed-counter flow "
+        "(atomic count, end_atomic acks, `use::atomic` reads) through the PRODUCTION embedded builder on random tick "
+        "partitions, per-tick acks/read responses compared with the model; (b) the atomic tick's hooks on the REAL "
+        "simulator hook objects and the real run_hooks (harness h_sim, scripted bolero driver) over multi-round "
+        "random arrival/decision scripts, compared with Sim.Model.run_hooks. Residual trust: that SimBuilder wires "
+        "begin_atomic as a batch hook, end_atomic as yield_from_tick and an Atomic-input batch as the identity "
+        "(read from sim/builder.rs, flow.sim() itself is not executed).")
     trusted_base = ["coqc 8.16.1 kernel (vm_compute for case evaluation only)",
                     "hand-written Gallina model coq/theories/HydroB/ModelAtomic.v",
                     "harness/h_hydro_b (production embedded code generation + tick driver), tools/hydrob.py"]
@@ -30,7 +32,7 @@ class C34(vlib.Spec):
             "non-trivial = some read of a key written in the same or an earlier tick")
 
     def n_cases(self, tier):
-        return 240 if tier == "quick" else 4000
+        return 120 if tier == "quick" else 3000
 
     def gen(self, rng, tier, n):
         cases = []
@@ -39,15 +41,34 @@ class C34(vlib.Spec):
             ticks = [{"w": [rng.below(4) for _ in range(rng.below(5))],
                       "r": [rng.below(4) for _ in range(rng.below(5))]} for _ in range(nt)]
             cases.append({"flow": "c34_counter", "ticks": ticks})
+        # the unified atomic tick on the real simulator hooks: [write hook; read hook]
+        for _ in range(n // 2):
+            kinds = [rng.choice(["stream_t", "keyed_t"]), rng.choice(["stream_t", "stream_n", "keyed_t", "keyed_n"])]
+            sim = hydrob.gen_sim_tick(rng, kinds, rng.range(1, 5 if tier == "quick" else 8), keys=4)
+            cases.append({"k": "echo", "sim": sim})
+        hydrob.sim_results(self.ctx, cases)
         return cases
 
     def to_coq(self, case, res):
+        if case.get("k") == "echo":
+            return hydrob.c34_sim_term(case["sim"], hydrob.sim_result(self.ctx, case))
         return hydrob.c34_term(case, res)
 
+    def describe(self, case, res):
+        if case.get("k") == "echo":
+            return {"case": case, "impl": hydrob.sim_result(self.ctx, case)}
+        return {"case": case, "impl": res}
+
     def shrink(self, case):
+        if case.get("k") == "echo":
+            sim = case["sim"]
+            return [{"k": "echo", "sim": dict(sim, rounds=sim["rounds"][:i])} for i in range(len(sim["rounds"]) - 1, 0, -1)]
         return hydrob.shrink_ticks(case)
 
     def nontrivial(self, case, res):
+        if case.get("k") == "echo":
+            r = hydrob.sim_result(self.ctx, case).get("rounds", [])
+            return sum(1 for x in r if x.get("emitted") and x["emitted"][0]) >= 1 and len(r) >= 2
         seen = set()
         for t in case["ticks"]:
             seen |= set(t.get("w", []))
@@ -57,7 +78,10 @@ class C34(vlib.Spec):
 
     def distribution(self, cases, results):
         d = {"ticks": {}, "writes": 0, "reads": 0, "reads_of_written_key": 0, "reads_same_tick_as_write": 0}
+        d["sim_cases"] = sum(1 for c in cases if c.get("k") == "echo")
         for c in cases:
+            if c.get("k") == "echo":
+                continue
             nt = len(c["ticks"])
             d["ticks"][nt] = d["ticks"].get(nt, 0) + 1
             seen = set()
